@@ -45,6 +45,27 @@ theorem facts_shutdown_skeleton :
     Generated.Shutdown.serveSkeleton = ["p.Closing", "l.Accept", "go p.handleLoop"] := by
   decide
 
+/-- What the round-3 part of the model relies on, regenerated from `/repo` on every check:
+* the only deadlines the proxy ever puts on a connection are the per-iteration idle deadlines of
+  `handleLoop` and of the MITM loop of `handleConnectRequest` (`p.timeout`, configured by the application)
+  — there is no deadline between the close decision and the response write, so the model has no move of
+  the proxy that abandons a write (`response_write_ends_only_complete`; `writeErr` is the environment's);
+* the shutdown signal is consulted by `Serve`, `handleLoop`, `readRequest` and the close decision of
+  `handle` only; `handleConnectRequest` never looks at it and only hands the channel to the HTTP/2 session
+  (`tunnel`, `mitmPeek`, `mitmHandshake` have no move that depends on `closing`; `h2Stop` does);
+* `handle`: request modifier, hijack check, round trip, response modifier, hijack check, close decision,
+  write, flush — in this order; `handleLoop` leaves after `handle` on a closeable error or a hijacked session. -/
+theorem facts_shutdown_round3 :
+    Generated.Shutdown.deadlineSites = ["handleLoop:SetDeadline", "handleConnectRequest:SetDeadline"] ∧
+    Generated.Shutdown.closingUses =
+      ["Close:close", "Closing:recv", "Serve:Closing", "handleLoop:Closing", "readRequest:recv",
+       "handleConnectRequest:arg:Proxy", "handle:Closing"] ∧
+    Generated.Shutdown.handleOrder =
+      ["readRequest", "handleConnectRequest", "ModifyRequest", "Hijacked", "roundTrip", "ModifyResponse",
+       "Hijacked", "Closing", "Write", "Flush"] ∧
+    Generated.Shutdown.handleLoopBody = ["SetDeadline", "handle", "isCloseable", "Hijacked"] := by
+  decide
+
 /-! ### every started exchange is completed before its connection is closed -/
 
 /-- In every reachable state every handler has completed all the exchanges it started, except
